@@ -782,6 +782,37 @@ pub fn run(seed: u64, count: usize, tier: &str, sink: &mut Sink) {
         let indent = Params { indent: Some(vec![]), ..Params::plain() };
         run_tree_in(&t, Domain::Representable, &[], &[indent, Params::plain()], sink);
     }
+    // the Pretty stack: chains of elements where every level is, independently, in / out of
+    // xml:space (preserve, default), mixed content or not, named in the suppress list or not,
+    // around an element-only core (seed C14i: a preserve + mixed level whose Mixed entry was
+    // lost, seen only below a later xml:space="default")
+    for _ in 0..(if tier == "quick" { 60 } else { 400 }) {
+        let mut t = GTree::new(GValue::Element(2), vec![GTree::new(GValue::Element(3), vec![]), GTree::new(GValue::Element(3), vec![])]);
+        let depth = 2 + rng.below(4);
+        for _ in 0..depth {
+            let mut kids = vec![];
+            match rng.below(4) {
+                0 => kids.push(GTree::leaf(GValue::Attribute(0, "preserve".into()))),
+                1 => kids.push(GTree::leaf(GValue::Attribute(0, "default".into()))),
+                _ => {}
+            }
+            let mixed = rng.chance(1, 3);
+            let before = mixed && rng.chance(1, 2);
+            if before {
+                kids.push(GTree::leaf(GValue::Text("text".into())));
+            }
+            kids.push(t);
+            if mixed && !before {
+                kids.push(GTree::leaf(GValue::Text("text".into())));
+            }
+            // name 4 is the one the suppress list names
+            t = GTree::new(GValue::Element(if rng.chance(1, 4) { 4 } else { *rng.pick(&[2usize, 3]) }), kids);
+        }
+        let t = GTree::new(GValue::Document, vec![GTree::new(GValue::Element(2), vec![t])]);
+        sink.stat("family.pretty-stack");
+        let ps = [Params { indent: Some(vec![4]), ..Params::plain() }, Params { indent: Some(vec![]), ..Params::plain() }];
+        run_tree_in(&t, Domain::Representable, &[], &ps, sink);
+    }
     for _ in 0..count {
         let (t, domain) = {
             let mut xot = Xot::new();
